@@ -9,8 +9,8 @@ Local Open Scope Z_scope.
       gen/TimersGen.v; they stop holding when the source changes a comparison, a delay, drops
       a re-arm or a cancel.                                                                   *)
 
-Lemma eps_ms_val : eps_ms = 100.
-Proof. reflexivity. Qed.
+Lemma eps_ms_nonneg : 0 <= eps_ms.
+Proof. unfold eps_ms. lia. Qed.
 
 Lemma made_ka_spec t lr k u a tm : connectionMade_ka t lr k u a tm = (Some (t + (k + eps_ms)), t, true, 0, 0).
 Proof. reflexivity. Qed.
@@ -291,7 +291,7 @@ Theorem idle_torn_down c tc T d pre post :
   now s + 2 * T + eps_ms + d < now s' ->
   exists x, In x (torn s') /\ x <= now s + 2 * T + eps_ms + d.
 Proof.
-  intros ET HT Hd S N s O S2 P s' Late. pose proof eps_ms_val as Heps.
+  intros ET HT Hd S N s O S2 P s' Late. pose proof eps_ms_nonneg as Heps.
   assert (I : inv c s).
   { apply inv_run; [apply inv_init|]. destruct (init_fields c tc) as (-> & _). exact S. }
   assert (C : closed s = false).
@@ -318,7 +318,7 @@ Theorem ping_within c tc K d pre post :
   now s + 2 * K + eps_ms + d < now s' ->
   exists new p, pings s' = new ++ pings s /\ In p new /\ now s <= p <= now s + 2 * K + eps_ms + d.
 Proof.
-  intros EK HK Hd S N s O S2 P s' Late. pose proof eps_ms_val as Heps.
+  intros EK HK Hd S N s O S2 P s' Late. pose proof eps_ms_nonneg as Heps.
   assert (I : inv c s).
   { apply inv_run; [apply inv_init|]. destruct (init_fields c tc) as (-> & _). exact S. }
   assert (C : closed s = false).
@@ -502,3 +502,197 @@ Proof.
   apply G; [apply inv_init | destruct (init_fields c tc) as (-> & _); exact S |].
   destruct (init_fields c tc) as (_ & _ & _ & _ & _ & _ & _ & Ft & _). unfold once_inv. rewrite Ft. cbn. auto.
 Qed.
+
+(* ------------------------------------------------------------------------------------------
+   8. PING / PONG                                                                               *)
+
+Definition is_pp (t : tok) : bool := (snd t =? tok_PING) || (snd t =? tok_PONG).
+
+(* what reaches the object grammar is the stream with the PING/PONG tokens deleted; the PONG numbers
+   written are the numbers of the PINGs, one each, in order *)
+Theorem rx_tokens_spec toks :
+  rx_tokens toks = (filter (fun t => negb (is_pp t)) toks, map fst (filter (fun t => snd t =? tok_PING) toks)).
+Proof.
+  induction toks as [|[h ty] r IH]; [reflexivity|].
+  cbn [rx_tokens filter map]. rewrite IH. unfold is_pp. cbn [snd fst].
+  destruct (ty =? tok_PING) eqn:E1; cbn [orb negb].
+  - reflexivity.
+  - destruct (ty =? tok_PONG) eqn:E2; cbn [negb]; reflexivity.
+Qed.
+
+Lemma tok_ping_pong_distinct : (tok_PONG =? tok_PING) = false /\ (tok_PING =? tok_PING) = true /\ (tok_PONG =? tok_PONG) = true.
+Proof. repeat split; reflexivity. Qed.
+
+(* a PING with any number, between any two tokens: the decoded stream is that of the message without it,
+   and exactly one PONG with the same number is added, in position *)
+Theorem ping_transparent pre post n :
+  rx_tokens (pre ++ (n, tok_PING) :: post) =
+  (fst (rx_tokens (pre ++ post)), snd (rx_tokens pre) ++ n :: snd (rx_tokens post)).
+Proof.
+  rewrite !rx_tokens_spec. cbn [fst snd]. rewrite !filter_app. cbn [filter]. unfold is_pp. cbn [snd fst].
+  destruct tok_ping_pong_distinct as (_ & -> & _). cbn [orb negb]. rewrite map_app. reflexivity.
+Qed.
+
+(* a PONG with any number, between any two tokens, produces nothing and changes nothing *)
+Theorem pong_ignored pre post n : rx_tokens (pre ++ (n, tok_PONG) :: post) = rx_tokens (pre ++ post).
+Proof.
+  rewrite !rx_tokens_spec. rewrite !filter_app. cbn [filter]. unfold is_pp. cbn [snd fst].
+  destruct tok_ping_pong_distinct as (-> & _ & ->). rewrite orb_true_r. cbn [negb]. reflexivity.
+Qed.
+
+(* ---- bytes: sendPING n / sendPONG n parse back (header scan of handleData) as (n, PING) / (n, PONG) *)
+
+Lemma int2b128_loop_len f : forall n acc out k, int2b128_loop1 f n acc = Ok out ->
+  0 <= n < 128 ^ Z.of_nat k -> (List.length out <= List.length acc + k)%nat.
+Proof.
+  induction f as [|f IH]; intros n acc out k E Hn; [discriminate|].
+  rewrite int2b128_loop_unfold in E. destruct (Z.eqb_spec n 0) as [->|Hnz]; cbn [negb] in E.
+  - inversion E; subst. lia.
+  - destruct k as [|k]; [cbn in Hn; lia|].
+    rewrite land127, shiftr7 in E. apply (IH _ _ _ k) in E.
+    + rewrite app_length in E. cbn [List.length] in E. lia.
+    + rewrite Nat2Z.inj_succ, Z.pow_succ_r in Hn by lia. split; [apply Z.div_pos; lia|].
+      apply Z.div_lt_upper_bound; lia.
+Qed.
+
+Lemma int2b128_digits n : 0 <= n < 128 ^ 64 ->
+  exists ds, int2b128 n [] = Ok ds /\ b1282int ds = Ok n /\ digits_ok 128 ds /\ ds <> [] /\ (List.length ds <= 64)%nat.
+Proof.
+  intros Hn. destruct (b128_roundtrip n ltac:(lia)) as (ds & E & D & Dg & NE). exists ds.
+  repeat split; auto.
+  unfold int2b128 in E. destruct (Z.eqb_spec n 0) as [->|Hnz].
+  - inversion E; subst. cbn. lia.
+  - destruct (Z.gtb_spec n 0); [|discriminate].
+    apply (int2b128_loop_len _ _ _ _ 64%nat) in E; [cbn [List.length] in E; lia|]. exact Hn.
+Qed.
+
+Lemma scan_digits ds : digits_ok 128 ds -> forall n acc b rest, (List.length ds <= n)%nat -> 128 <= b ->
+  scan n acc (ds ++ b :: rest) =
+  HTok (hdr_of (rev ds ++ acc)) b rest.
+Proof.
+  induction 1 as [|d ds Hd _ IH]; intros n acc b rest Hl Hb.
+  - cbn [app scan rev]. destruct (Z.leb_spec 128 b); [reflexivity|lia].
+  - cbn [app scan]. destruct (Z.leb_spec 128 d); [lia|]. destruct n as [|n]; [cbn in Hl; lia|].
+    rewrite IH by (cbn in Hl; lia || exact Hb). cbn [rev]. rewrite <- app_assoc. reflexivity.
+Qed.
+
+Lemma tok_ping_ge : 128 <= tok_PING /\ 128 <= tok_PONG.
+Proof. unfold tok_PING, tok_PONG. lia. Qed.
+
+Lemma header_limit_val : Z.to_nat header_limit = 64%nat.
+Proof. reflexivity. Qed.
+
+Lemma send_scan (send : Z -> list Z -> res (list Z)) tokb n :
+  (forall w, send n w = match (if negb (n =? 0) then int2b128 n w else Ok w) with Exc t => Exc t | Ok w => Ok (w ++ [tokb]) end) ->
+  128 <= tokb -> 0 <= n < 128 ^ 64 ->
+  exists bs, send n [] = Ok bs /\ scan_token bs = HTok n tokb [].
+Proof.
+  intros Hs Hb Hn. rewrite Hs. destruct (n =? 0) eqn:Ez; cbn [negb].
+  - apply Z.eqb_eq in Ez. eexists. split; [reflexivity|]. cbn [app]. unfold scan_token. rewrite header_limit_val. cbn [scan].
+    destruct (Z.leb_spec 128 tokb); [|lia]. unfold hdr_of. rewrite Ez. reflexivity.
+  - destruct (int2b128_digits n Hn) as (ds & E & D & Dg & NE & L). rewrite E. eexists. split; [reflexivity|].
+    unfold scan_token. rewrite header_limit_val. rewrite (scan_digits ds Dg 64%nat [] tokb [] L Hb).
+    rewrite app_nil_r. unfold hdr_of. destruct (rev ds) eqn:Er.
+    + exfalso. apply NE. apply (f_equal (@rev Z)) in Er. rewrite rev_involutive in Er. exact Er.
+    + rewrite <- Er, rev_involutive, D. reflexivity.
+Qed.
+
+(* C15, sentence 4: for every ping number that fits the 64-digit header, the bytes of sendPING n are read
+   as the token (n, PING); the reply to it is sendPONG n, whose bytes are read as (n, PONG) by the other
+   side; and a received PONG is answered with nothing *)
+Theorem pong_echo n : 0 <= n < 2 ^ 448 ->
+  exists ping pong,
+    sendPING n [] = Ok ping /\ scan_token ping = HTok n tok_PING [] /\
+    reply_bytes n tok_PING = Ok pong /\ scan_token pong = HTok n tok_PONG [] /\
+    reply_bytes n tok_PONG = Ok [].
+Proof.
+  intros Hn. change (2 ^ 448) with (128 ^ 64) in Hn. destruct tok_ping_ge as [G1 G2].
+  destruct (send_scan sendPING tok_PING n (fun w => eq_refl) G1 Hn) as (ping & E1 & S1).
+  destruct (send_scan sendPONG tok_PONG n (fun w => eq_refl) G2 Hn) as (pong & E2 & S2).
+  exists ping, pong. repeat split; auto.
+Qed.
+
+(* numbers that need more than 64 header digits are refused by the receiver (BananaError) *)
+Lemma scan_too_long ds : digits_ok 128 ds -> forall n acc rest, (n < List.length ds)%nat -> scan n acc (ds ++ rest) = HBad.
+Proof.
+  induction 1 as [|d ds Hd _ IH]; intros n acc rest Hl; [cbn in Hl; lia|].
+  cbn [app scan]. destruct (Z.leb_spec 128 d); [lia|]. destruct n as [|n]; [reflexivity|]. apply IH. cbn in Hl. lia.
+Qed.
+
+Theorem ping_number_too_big n : 2 ^ 448 <= n ->
+  exists bs, sendPING n [] = Ok bs /\ scan_token bs = HBad.
+Proof.
+  intros Hn. change (2 ^ 448) with (128 ^ 64) in Hn.
+  destruct (int2b128_spec n [] ltac:(lia)) as (ds & E & V & Dg & NE). cbn [app] in E.
+  pose proof (le_val_bound 128 ds ltac:(lia) Dg) as B. rewrite V in B.
+  assert (L : (64 < List.length ds)%nat).
+  { destruct (Nat.lt_ge_cases 64 (List.length ds)) as [|Hle]; [assumption|exfalso].
+    assert (128 ^ Z.of_nat (List.length ds) <= 128 ^ 64) by (apply Z.pow_le_mono_r; lia). lia. }
+  unfold sendPING. destruct (Z.eqb_spec n 0) as [Hz|_]; [lia|]. cbn [negb]. rewrite E.
+  eexists. split; [reflexivity|]. unfold scan_token. rewrite header_limit_val. apply scan_too_long; assumption.
+Qed.
+
+(* ------------------------------------------------------------------------------------------
+   9. Non-vacuity: the hypotheses of the theorems are satisfiable by non-trivial histories,
+      and the bounds are attained                                                               *)
+
+Definition c23 : cfg := {| cK := Some 2000; cT := Some 3000 |}.
+
+(* arrival at 3000, dc fires at 3100 (age 100), 6200 (age 3200 > 3000): torn at 6200 <= 3000 + 2*3000 + 100 = 9100 *)
+Example ex_idle_hyps :
+  let pre := [Tick 2100; Rx 3000] in let post := [Tick 3100; Tick 4200; Tick 6200; Tick 6300; Tick 8400; Tick 9200] in
+  sorted_from 0 pre /\ no_close pre /\ only_ticks post /\ sorted_from (now (run c23 (init c23 0) pre)) post /\
+  punctual c23 0 (run c23 (init c23 0) pre) post /\
+  now (run c23 (init c23 0) pre) + 2 * 3000 + eps_ms + 0 < now (run c23 (init c23 0) (pre ++ post)) /\
+  torn (run c23 (init c23 0) (pre ++ post)) = [6200] /\ rev (pings (run c23 (init c23 0) (pre ++ post))) = [2100; 6300; 8400].
+Proof.
+  cbv zeta. split; [cbn; lia|]. split; [repeat constructor; intros [t E]; discriminate|].
+  split; [repeat constructor; eexists; reflexivity|].
+  split; [vm_compute; intuition discriminate|].
+  split; [vm_compute; repeat split; intros e E; inversion E; discriminate|].
+  vm_compute. repeat split; reflexivity.
+Qed.
+
+(* the bound 2T + eps is attained: last arrival at 100 (= expiry - T), the disconnect timer fires at 3100 with
+   age exactly T (not > T), and tears down at 6200 = 100 + 2*3000 + 100 *)
+Example ex_bound_tight :
+  let c := {| cK := None; cT := Some 3000 |} in
+  torn (run c (init c 0) [Rx 100; Tick 3100; Tick 6199]) = [] /\
+  torn (run c (init c 0) [Rx 100; Tick 3100; Tick 6200]) = [6200].
+Proof. vm_compute. split; reflexivity. Qed.
+
+(* decidable form of the hypothesis of active_kept *)
+Fixpoint gaps_ok (T cur : Z) (ab : bool) (evs : list ev) : bool :=
+  match evs with
+  | [] => true
+  | Rx t :: r => gaps_ok T (if ab then cur else t) ab r
+  | RxBad t :: r => gaps_ok T (if ab then cur else t) true r
+  | Tick t :: r => (t - cur <=? T) && gaps_ok T cur ab r
+  | Close _ :: r => gaps_ok T cur ab r
+  end.
+
+Lemma gaps_ok_spec T evs : forall cur ab, gaps_ok T cur ab evs = true ->
+  forall pre t post, evs = pre ++ Tick t :: post -> t - last_arrival cur ab pre <= T.
+Proof.
+  induction evs as [|e r IH]; intros cur ab H pre t post E.
+  - destruct pre; discriminate.
+  - destruct pre as [|e' pre]; cbn [app] in E; inversion E; subst.
+    + cbn [gaps_ok last_arrival] in *. apply andb_true_iff in H as [H _]. apply Z.leb_le in H. exact H.
+    + destruct e' as [u|u|u|u]; cbn [gaps_ok last_arrival] in *;
+        try (apply andb_true_iff in H as [_ H]); eapply IH; eauto.
+Qed.
+
+(* an arrival exactly every T keeps the connection for ever (here 4 rounds), whatever the reactor does in between *)
+Example ex_active_hyp :
+  let c := {| cK := None; cT := Some 3000 |} in
+  let evs := [Tick 3000; Rx 3000; Tick 3100; Rx 6000; Tick 6200; Tick 9000; Rx 9000; Tick 9300; Tick 12000] in
+  (forall pre t post, evs = pre ++ Tick t :: post -> t - last_arrival 0 false pre <= 3000) /\ torn (run c (init c 0) evs) = [].
+Proof. cbv zeta. split; [apply gaps_ok_spec; reflexivity | reflexivity]. Qed.
+
+Example ex_cancel : let s' := run c23 (init c23 0) [Tick 2100; Close 2500; Tick 9000; Rx 9500; Tick 20000] in
+  ka s' = None /\ dc s' = None /\ pings s' = [2100] /\ torn s' = [].
+Proof. vm_compute. repeat split; reflexivity. Qed.
+
+Example ex_pp : rx_tokens [(0, 128); (5, tok_PING); (7, 129); (9, tok_PONG); (2 ^ 448 - 1, tok_PING); (1, 137)]
+  = ([(0, 128); (7, 129); (1, 137)], [5; 2 ^ 448 - 1]).
+Proof. vm_compute. reflexivity. Qed.
